@@ -41,6 +41,47 @@ func C09(c *core.Ctx) {
 				c.Und("R9.1", key, c.Pos(ci), "OutPkt argument is not a local literal with a Pkt field; cannot identify the packet sent")
 				continue
 			}
+			// the emission sits in a helper that several pipelines share and that is handed
+			// the face and the packet (sendOnFace(face, packet, …)): the gate is each
+			// caller's — decided at every call of the helper, with the helper's parameters
+			// standing for the caller's arguments
+			if rp, okR := core.Strip(recv).(*ssa.Parameter); okR && rp.Parent() == fn {
+				if pp, okP := core.Strip(pkt).(*ssa.Parameter); okP && pp.Parent() == fn && fn.Parent() == nil && len(p.Callers(fn)) >= 2 {
+					idxOf := func(q *ssa.Parameter) int {
+						for i, x := range fn.Params {
+							if x == q {
+								return i
+							}
+						}
+						return -1
+					}
+					ri, pi := idxOf(rp), idxOf(pp)
+					nSites-- // counted per caller below
+					for _, cs := range p.Callers(fn) {
+						if strings.HasSuffix(p.File(cs.Parent().Pos()), "_test.go") {
+							continue
+						}
+						r0, as := core.CallArgs(cs.Common())
+						all := as
+						if fn.Signature.Recv() != nil {
+							all = append([]ssa.Value{r0}, as...)
+						}
+						if ri < 0 || pi < 0 || ri >= len(all) || pi >= len(all) {
+							continue
+						}
+						nSites++
+						crecv, cpkt := all[ri], all[pi]
+						ckey := fmt.Sprintf("outbound-gate:%s:recv=%s", core.FuncName(cs.Parent()), describeFaceValue(crecv))
+						res := core.GateDeep(core.RootOf(cs.Parent()), []ssa.Instruction{cs}, core.Lit{A: atomNonLocal(crecv)}, core.Lit{A: atomNonEmptyName(cpkt, nil)}, core.Lit{A: atomLocalhostName(cpkt, nil)})
+						if res.OK && res.PerLit[0] > 0 && res.PerLit[2] > 0 {
+							c.Ok("R9.1", ckey, c.Pos(cs), fmt.Sprintf("drop gate found at the call of the shared emission helper %s (%d pass edges)", core.FuncName(fn), res.PassEdges))
+						} else {
+							c.Viol("R9.1", ckey, c.Pos(cs), fmt.Sprintf("the call of the emission helper %s is reachable on a path on which the receiver's scope and the packet name's /localhost component are not both tested with drop polarity (nonlocal atoms matched=%d, localhost atoms matched=%d)", core.FuncName(fn), res.PerLit[0], res.PerLit[2]))
+						}
+					}
+					continue
+				}
+			}
 			nl := atomNonLocal(recv)
 			lh := atomLocalhostName(pkt, nil)
 			ne := atomNonEmptyName(pkt, nil)
